@@ -40,745 +40,11 @@ RULE = ('generated small programs (calls, lists, tuples, operators, attributes, 
         'defaults present or absent independently), classes, lambdas and comprehensions against Python scoping computed on the '
         'CPython tree; identifier lists: slots at every index among fixed entries in MatchClass keyword attributes (pattern '
         'templates), call/class keyword names, global/nonlocal names, import aliases, lambda/def arguments, attribute chains, '
-        'filled by name by the reference; plus the documentation examples as directed cases. (a) correspondence: tree, per-node match results of the REAL matcher and the '
-        'template are translated into the Lean model; when the model asks about a tree that did not exist in the input (leave, '
-        'loop) the real matcher is asked and the case re-run; result tree (ctx kept) and both counts compared with the real subn. '
-        '(b) sweep: the real subn against a pure-AST reference transformer written in the harness (copy.deepcopy, captures taken '
-        'by path, no index arithmetic, loop counted per location; string slots = textual substitution judged on the RE-PARSED '
-        'result: the Constant value must be the template text with every slot replaced by text that parses to the captured node), plus tree==parse(source) of the result, counts, identity template, exact lines of '
-        'top-level statements that contain no substituted node. distinct = distinct (program, pattern, template, settings); '
-        'non-trivial = at least one substitution made')
-TRUSTED = ['modelled (Pfst/Sub.lean): subn driver = search/walk order for on=enter and on=leave with the walk mutation rules '
-           '(children of a replaced node walked only after a single-node put, never after a slice put), the dirty set '
-           '(template nodes, root of a whole-match copy), count countdown and break, loop re-application incl. `replaced` '
-           'after a slice put, the two returned counts; slot filling for Name slots: expression slot in a single field / in a '
-           'list field (incl. Call._args with positional arguments), Expr-statement slot in a body, slot as whole template, '
-           'multi-statement (Module) templates; slice-vs-one decision (one = not slice, one_override, pfield.idx is None); '
-           '_sub_quantifier_list_edge_item index arithmetic incl. the mapping of Call.args/keywords (ClassDef.bases/keywords) '
-           'elements to their index in the virtual field _args/_bases (source order; the harness passes the REAL field and '
-           'pfield.idx of every captured element and the layout from CPython positions) and the _get_slice range',
-           'not modelled: the matcher (parameter; C17), copy/put/coercion of source text (C01/C04/C19; the sweep checks the '
-           'result with CPython), slots other than Name (identifier slots filled from a captured Name and string slots are in the reference sweep only, not in the model; Dict/MatchMapping "...": pairs, '
-           'comprehension/ExceptHandler/match_case forms), the special parents BoolOp/Compare/withitem/arguments/MatchClass/'
-           'keyword; __FSO_ on a slice (put as one List/Tuple/Set element) and __FSS_ on a node (its elements spliced) are judged by the reference sweep, the model reports them as outside its set; callback/callback_after, self_/recurse/'
-           'scope/back/asts, f-string parents; generated cases falling there are tallied as skipped',
-           'the walk order of the model is the order of field blocks; programs whose syntax order interleaves fields '
-           '(Dict, Compare chains, arguments with defaults) are skipped for count>0 only; intermediate trees (on=leave, loop) with '
-           'interleaved call arguments cannot be re-created from a bare AST and are skipped (tallied)',
-           'expr_context is kept in the compared trees; captured nodes are only moved between Load positions by the generator']
-ASSUMPTIONS = ['the matcher is a function of the subtree only (the harness asks the real matcher about detached copies of '
-               'intermediate trees)',
-               'fuel: the theorems assume fuel >= height of the tree; runs in which the model runs out of fuel '
-               '(non-terminating loop=True) are skipped, the real code is not called on them']
-LEVEL_TEXT = ('Lean 4 theorems about an executable model of subn: for nested=False the stack walk with dirty test, countdown and '
-              'break equals an independently written recursive reference transformer (any tree, matcher, template); both counts '
-              'equal the number of rewritten positions; count=k caps unique at k for every setting; subtrees without a match are '
-              'returned unchanged for every setting; the whole-match template is the identity on structure (flat and nested: '
-              'every match at every depth visited exactly once); template nodes are never substituted; the first/last index '
-              'arithmetic of quantifier captures yields exactly the captured contiguous range.')
-LEVEL_NOTE = ('Partial: the general nested=True statement (result = template with recursively rewritten captures) and the '
-              'equality unique = min(k, matches) are not proved; they are checked per case by the correspondence and by the '
-              'pure-AST reference sweep. The model is tied to /repo differentially on every run.')
-TECHNIQUE = 'Lean 4 proof (induction on fuel and nested trees, omega, decide) + model-implementation correspondence + reference-transformer sweep'
-
-FUEL = 300
-LFUEL = 6
-MAX_ROUNDS = 6
-
-
-# ---------------------------------------------------------------------------------------------------------------------
-# correspondence: Lean model of subn vs the real subn, the real matcher supplying `matches`
-
-def _prepare(job):
-    try:
-        return L.with_timeout(60, _prepare0, job)
-    except L.Timeout:
-        out = dict(job)
-        out['skip'] = 'TIMEOUT in prepare'
-        return out
-
-
-def _prepare0(job):
-    """job -> job + Lean case (tree, match table of every real node, template term); or job + skip reason"""
-    from fst import FST
-    from fst.code import code_as_all
-    out = dict(job)
-    try:
-        root = FST(job['src'], 'exec')
-        pat = L.make_pattern(job['pat'])
-        tm_ast = code_as_all(job['tmpl']).a
-    except Exception as e:
-        out['skip'] = 'setup: ' + type(e).__name__
-        return out
-    tags, I = L.Intern(), L.Intern()
-    if job.get('cat') == 'stmt' and isinstance(tm_ast, ast.expr) and not (isinstance(tm_ast, ast.Name) and L.SLOT_RE.match(tm_ast.id)):
-        out['skip'] = 'expression template for a statement match (coercion to Expr is C19)'
-        return out
-    try:
-        troot = L.tmpl_root(tm_ast, tags)
-    except L.Unmodelled as e:
-        out['skip'] = 'template outside the modelled set: ' + str(e)
-        return out
-    table = {}
-    nmatch = 0
-    try:
-        for f in root.walk(True):
-            if isinstance(f.a, ast.expr_context):
-                continue
-            g = L.to_gen(f.a, True)
-            k = L.gen_key(g)
-            if k in table:
-                continue
-            m = f.match(pat, ctx=job['set'].get('ctx', False))
-            nmatch += m is not None
-            table[k] = (g, L.env_of(m, tags) if m else None)
-    except L.Unmodelled as e:
-        out['skip'] = 'capture outside the modelled set: ' + str(e)
-        return out
-    s = job['set']
-    if s['count'] and not L.order_safe(root.a):
-        out['skip'] = 'count with interleaved fields (walk order not modelled)'
-        return out
-    tree = I.tree(L.to_gen(root.a, True))
-    tab = [[I.tree(g), None if env is None else L.intern_env(env, I)] for g, env in table.values()]
-    tm = [troot[0], L.intern_tmpl(troot[1], I)] if troot[0] == 'single' else \
-        [troot[0], [L.intern_tmpl(k, I) for k in troot[1]]]
-    loop = s['loop']
-    out['case'] = {'f': 'C18.subn', 'tree': tree, 'table': tab, 'tmpl': tm, 'nested': s['nested'], 'count': s['count'],
-                   'loop': None if loop is False else (0 if loop is True else int(loop)), 'on': s['on'], 'fuel': FUEL, 'lfuel': LFUEL}
-    out['labels'] = I.names
-    out['tags'] = tags.names
-    out['nmatch'] = nmatch
-    return out
-
-
-def _finish_case(st):
-    I = L.Intern()
-    for n in st['labels']:
-        I(n)
-    c = st['case']
-    c['stmt'] = [i for i, n in enumerate(I.names) if not L.is_field_label(n) and L.is_stmt_label(n)]
-    c['field'] = [i for i, n in enumerate(I.names) if L.is_field_label(n)]
-    return c
-
-
-def _extend(arg):
-    try:
-        return L.with_timeout(60, _extend0, arg)
-    except L.Timeout:
-        st = dict(arg[0])
-        st['skip'] = 'TIMEOUT in extend'
-        return st
-
-
-def _extend0(arg):
-    """(state, needed trees) -> state with the real matcher's answers for the needed trees added to the table"""
-    st, need = arg
-    I = L.Intern()
-    for n in st['labels']:
-        I(n)
-    tags = L.Intern()
-    for n in st['tags']:
-        tags(n)
-    pat = L.make_pattern(st['pat'])
-    for t in need:
-        g = I.untree(t)
-        try:
-            f = L.fst_of_gen(g)
-            if L.to_gen(f.a, True) != g:
-                # Python source cannot be re-created from a bare AST with interleaved keywords / starred arguments
-                st['skip'] = 'intermediate tree cannot be rebuilt in the same argument order'
-                return st
-            m = f.match(pat, ctx=st['set'].get('ctx', False))
-            env = L.env_of(m, tags) if m else None
-        except L.Unmodelled as e:
-            st['skip'] = 'capture outside the modelled set: ' + str(e)
-            return st
-        except Exception as e:
-            st['skip'] = 'intermediate tree cannot be rebuilt: ' + type(e).__name__
-            return st
-        st['case']['table'].append([I.tree(g), None if env is None else L.intern_env(env, I)])
-    st['labels'] = I.names
-    st['tags'] = tags.names
-    return st
-
-
-def _subn(job):
-    from fst import FST
-    root = FST(job['src'], 'exec')
-    pat = L.make_pattern(job['pat'])
-    s = job['set']
-    tmpl = FST(job['tmpl'], job['tmpl_mode']) if job.get('tmpl_mode') else job['tmpl']
-    r = root.subn(pat, tmpl, s['nested'], count=s['count'], loop=s['loop'], on=s['on'], ctx=s.get('ctx', False))
-    return root, r[1], r[2]
-
-
-def _real(job):
-    try:
-        root, u, t = L.with_timeout(20, _subn, job)
-    except L.Timeout:
-        return {'exc': 'Timeout'}
-    except RecursionError:
-        return {'exc': 'RecursionError'}
-    except Exception as e:
-        return {'exc': type(e).__name__, 'msg': str(e)[:120]}
-    return {'tree': L.to_gen(root.a, True), 'unique': u, 'total': t, 'src': root.src}
-
-
-def _lean_batch(cases):
-    """cases through the native driver (called inside a worker; one JSON line per case in, one per case out)"""
-    import subprocess
-    import framework
-    if not cases:
-        return []
-    exe = framework.LEAN / '.lake' / 'build' / 'bin' / 'driver'
-    data = ''.join(json.dumps(c, separators=(',', ':')) + '\n' for c in cases)
-    p = subprocess.run([str(exe)], input=data, capture_output=True, text=True, timeout=600)
-    lines = p.stdout.splitlines()
-    if p.returncode != 0 or len(lines) != len(cases):
-        raise RuntimeError('driver failed: ' + p.stderr[:200])
-    return [json.loads(l).get('out', {}) for l in lines]
-
-
-def _close_models(states):
-    """run the model on every state; whenever it asks the matcher about a tree that is not in the table (intermediate
-    trees of on=leave / loop), ask the real matcher and run again.  -> {index: model output}; st['skip'] set otherwise"""
-    outs = {}
-    open_ = [i for i, st in enumerate(states) if 'skip' not in st]
-    for rnd in range(MAX_ROUNDS + 6):
-        if not open_:
-            break
-        res = _lean_batch([_finish_case(states[i]) for i in open_])
-        nxt = []
-        for i, o in zip(open_, res):
-            st = states[i]
-            if 'trees' not in o:
-                st['skip'] = 'driver: ' + str(o)[:80]
-            elif not o['need']:
-                outs[i] = o
-            else:
-                n = _extend(( st, o['need']))
-                if n is not st:
-                    st.clear()
-                    st.update(n)
-                if 'skip' not in st:
-                    nxt.append(i)
-        open_ = nxt
-    for i in open_:
-        states[i]['skip'] = 'matcher table did not close in %d rounds' % (MAX_ROUNDS + 6)
-    return outs
-
-
-def _pipeline_chunk(jobs):
-    """prepare -> model (with matcher-table closure) -> real subn, for a chunk of jobs inside one worker"""
-    states = [_prepare(j) for j in jobs]
-    outs = _close_models(states)
-    results = []
-    for i, (job, st) in enumerate(zip(jobs, states)):
-        if i not in outs:
-            results.append({'job': job, 'skip': st.get('skip', 'no model output')})
-            continue
-        o = outs[i]
-        I = L.Intern()
-        for nm in st['labels']:
-            I(nm)
-        out = {'job': job, 'err': o['err'], 'unique': o['unique'], 'total': o['total'],
-               'trees': [I.untree(t) for t in o['trees']]}
-        if o['err'] != 3:
-            out['real'] = _real(job)
-        results.append(out)
-    return results
-
-
-def run_model(ctx, states):
-    """states with 'case' -> model outputs (kept for debugging tools; the correspondence uses _pipeline)"""
-    o = _close_models(states)
-    return {id(states[i]): v for i, v in o.items()}
-
-
-def correspondence(ctx):
-    rng = random.Random(ctx.rng.random())
-    jobs = [dict(j) for j in L.DIRECTED] + L.gen_jobs(rng, 700 if ctx.quick else 9000, string_slots=False) \
-        + L.gen_chain_jobs(rng, 300 if ctx.quick else 3000) + L.gen_arglike_jobs(rng, 250 if ctx.quick else 2500) \
-        + L.gen_ctx_jobs(rng, 120 if ctx.quick else 1200)
-    k = max(1, len(jobs) // 32)
-    rng.shuffle(jobs)
-    results = [r for lst in pmap(_pipeline_chunk, [jobs[i:i + k] for i in range(0, len(jobs), k)], chunksize=1) for r in lst]
-    name = 'subn vs Pfst.Sub.run'
-    bad = n = refused = 0
-    first = None
-    timeouts = []
-    for res in results:
-        s = res['job']
-        if 'skip' in res:
-            ctx.tally('corr_skipped', res['skip'])
-            continue
-        if res['err'] == 3:
-            ctx.tally('corr_skipped', 'model out of fuel (non-terminating loop)')
-            continue
-        if res['err'] == 2:
-            ctx.tally('corr_skipped', 'slot put outside the modelled set (unsup)')
-            continue
-        r = res['real']
-        sig = f'{s["shape"]}|{s["placement"]}|{L.setting_name(s["set"])}'
-        n += 1
-        ctx.corr_cases += 1
-        what = None
-        if res['err'] == 1:
-            ctx.tally('corr_outcome', 'both refuse')
-            if 'exc' not in r:
-                what = 'model: pfst raises (documented refusal); pfst returned a result'
-            elif r['exc'] not in L.REFUSALS:
-                what = f'model: documented refusal; pfst raised {r["exc"]}'
-            ctx.count((s['src'], s['pat'], s['tmpl'], str(s['set'])), True)
-        elif 'exc' in r and r['exc'] == 'Timeout':
-            timeouts.append(s)
-            ctx.tally('corr_skipped', 'pfst did not finish in 20 s (size blow-up)')
-            n -= 1
-            ctx.corr_cases -= 1
-            continue
-        elif 'exc' in r:
-            if r['exc'] in L.REFUSALS:
-                refused += 1
-                ctx.tally('impl_refused', f'{r["exc"]}: {r.get("msg", "")[:50]}')
-                n -= 1
-                ctx.corr_cases -= 1
-                continue
-            what = f'pfst raised {r["exc"]}: {r.get("msg", "")}'
-        else:
-            ctx.count((s['src'], s['pat'], s['tmpl'], str(s['set'])), res['total'] > 0)
-            ctx.tally('corr_setting', L.setting_name(s['set']))
-            ctx.tally('corr_shape_placement', f'{s["shape"]}|{s["placement"]}')
-            if s['set']['loop'] is not False:
-                ctx.tally('corr_loop', f'loop={s["set"]["loop"]} unique={res["unique"]} total={res["total"]}'
-                          if res['total'] > res['unique'] else f'loop={s["set"]["loop"]} no re-application')
-            mt, rt_ = res['trees'], r['tree']
-            if 'ctx' in s['set']:
-                # a template put into a Store/Del position takes that context (C01 judges it in the sweep); the model
-                # keeps the template's labels: compare modulo expr_context for the jobs that target such positions
-                mt, rt_ = [L.strip_ctx(t) for t in mt], L.strip_ctx(rt_)
-            if len(mt) != 1 or mt[0] != rt_:
-                what = 'result trees differ'
-            elif res['unique'] != r['unique'] or res['total'] != r['total']:
-                what = f'counts differ: model {(res["unique"], res["total"])} pfst {(r["unique"], r["total"])}'
-        if what:
-            bad += 1
-            job = {k: s[k] for k in ('src', 'pat', 'tmpl', 'set', 'shape', 'placement', 'cat')}
-            if len(ctx.corr_disagreements) < 20:
-                ctx.corr_disagreements.append({'corr': name, 'sig': sig, 'what': what, 'job': job,
-                                               'pfst_src': r.get('src'), 'model_counts': [res['unique'], res['total']]})
-            ctx.hints.append((name, job))
-        elif first is None and res['total'] > 0:
-            first = s
-    ctx.notes['corr_cases_compared'] = n
-    ctx.notes['corr_impl_refused'] = refused
-    ctx.dist.setdefault('correspondence_cases', {})[name] = n
-    if first:
-        ctx.sample({'corr': name, 'src': first['src'][:200], 'pat': first['pat'], 'tmpl': first['tmpl'], 'set': first['set']})
-    ctx.notes['corr_timeouts'] = len(timeouts)
-    if len(timeouts) > max(4, len(results) // 150):
-        job = {k: timeouts[0][k] for k in ('src', 'pat', 'tmpl', 'set', 'shape', 'placement', 'cat')}
-        ctx.hints.append((name, job))
-        ctx.brk('correspondence', name, f'{len(timeouts)} of {len(results)} real substitutions did not finish in 20 s; first: {job}')
-    if n and refused > 0.5 * (n + refused):
-        ctx.brk('correspondence', name, f'pfst refused {refused} of {n + refused} generated substitutions (expected well under half)')
-    if bad:
-        ctx.brk('correspondence', name, f'{bad}/{n} cases differ; first: ' + str(ctx.corr_disagreements[0])[:1500])
-
-
-# ---------------------------------------------------------------------------------------------------------------------
-# sweep: the property itself on the real code against the pure-AST reference (harness/c18_ref.py)
-
-CRASHES = ('AssertionError', 'AttributeError', 'TypeError', 'IndexError', 'KeyError', 'RuntimeError', 'RecursionError',
-           'Timeout', 'UnboundLocalError', 'NameError', 'ZeroDivisionError', 'StopIteration')
-
-
-def _subn_full(job):
-    import util
-    root, u, t = _subn(job)
-    c01 = util.tree_equals_parse(root)
-    stale = False
-    if c01:
-        try:
-            stale = REF.stale_constants_only(root.a, ast.parse(root.src))
-        except SyntaxError:
-            pass
-    return {'tree': L.to_gen(root.a), 'unique': u, 'total': t, 'src': root.src, 'c01': c01, 'stale_only': stale}
-
-
-def _block_preserved(src, out, stmt, others):
-    lines = src.split('\n')
-    start = min([stmt.lineno] + [d.lineno for d in getattr(stmt, 'decorator_list', [])])
-    end = stmt.end_lineno
-    for o in others:
-        if o is not stmt and not (o.end_lineno < start or o.lineno > end):
-            return True         # shares a line with another statement: not checkable line-wise
-    block = '\n'.join(lines[start - 1:end])
-    return ('\n' + block + '\n') in ('\n' + out + '\n')
-
-
-def _sweep_case(job):
-    try:
-        return L.with_timeout(90, _sweep_case0, job)
-    except L.Timeout:
-        return {'job': job, 'skip': 'TIMEOUT in sweep case'}
-
-
-def _sweep_case0(job):
-    from fst import FST
-    res = {'job': job}
-    s = job['set']
-    try:
-        root0 = FST(job['src'], 'exec')
-        pat = L.make_pattern(job['pat'])
-    except Exception as e:
-        res['skip'] = 'setup: ' + type(e).__name__
-        return res
-    if s['count'] and not L.order_safe(root0.a, plain=True):
-        # walk order is not part of the reference: judge the case without the cap
-        job = dict(job, set=dict(s, count=0))
-        res['job'] = job
-        s = job['set']
-    expect_refusal = False
-    info = {}
-    try:
-        ref, ru, rt, kept = REF.reference(root0, job['src'], pat, job['tmpl'], job['cat'], s['nested'], s['count'],
-                                          s['loop'], s['on'], info=info, ctx=s.get('ctx', False), spec=job.get('spec'))
-    except REF.Skip as e:
-        res['skip'] = 'reference: ' + str(e)
-        return res
-    except REF.Refuse:
-        expect_refusal = True
-    except RecursionError:
-        res['skip'] = 'reference: recursion'
-        return res
-    try:
-        real = L.with_timeout(20, _subn_full, job)
-    except L.Timeout:
-        real = {'exc': 'Timeout'}
-    except RecursionError:
-        real = {'exc': 'RecursionError'}
-    except Exception as e:
-        real = {'exc': type(e).__name__, 'msg': str(e)[:120]}
-    if 'exc' in real:
-        if real['exc'] == 'Timeout':
-            res['timeout'] = True           # judged in bulk (_report): a few blow-ups (whole match copied several times
-            return res                      # under leave/loop/nested) are expected, many are not
-        if real['exc'] in CRASHES and not expect_refusal:
-            res['fail'] = ('crash', f'subn raised {real["exc"]}: {real.get("msg", "")}')
-        else:
-            res['refused'] = real['exc']
-        return res
-    if expect_refusal:
-        res['accepted'] = True
-        return res
-    res['nsub'] = real['total']
-    res['out'] = real['src']
-    strslot = REF.has_string_slot(job['tmpl'])
-    if strslot:
-        # a slot inside a string constant is a textual substitution: judge the re-parsed result source
-        try:
-            exp = ast.unparse(ast.fix_missing_locations(ref))
-        except Exception:
-            exp = None
-        try:
-            got = ast.parse(real['src'])
-        except SyntaxError as e:
-            res['fail'] = ('no-parse', f'result source does not parse: {e}', {'expected_src_slots_unfilled': exp})
-            return res
-        try:
-            d = REF.cmp_ast(ref, got)
-        except REF.Skip as e:
-            res['skip'] = 'reference: ' + str(e)
-            return res
-        if d:
-            res['fail'] = ('tree-differs', 're-parsed result differs from the reference transformer: ' + d,
-                           {'expected_src_slots_unfilled': exp})
-            return res
-    g = L.to_gen(ref)
-    rtree = real['tree']
-    if 'ctx' in s:
-        g, rtree = L.strip_ctx(g), L.strip_ctx(rtree)
-    if not strslot and g != rtree:
-        cls = 'tree-differs'
-        if s['nested'] and s['on'] == 'enter':
-            try:
-                q, qu, qt, _ = REF.reference(root0, job['src'], pat, job['tmpl'], job['cat'], s['nested'], s['count'],
-                                             s['loop'], s['on'], quirk=True, ctx=s.get('ctx', False))
-                if L.to_gen(q) == real['tree'] and (qu, qt) == (real['unique'], real['total']):
-                    cls = 'slice-no-descent'
-            except Exception:
-                pass
-        if cls == 'tree-differs' and s['nested'] and s['on'] == 'enter' and '__FSS_' in job['tmpl']:
-            # does the result equal the variant in which the first element spliced from the whole match is skipped?
-            try:
-                q, qu, qt, _ = REF.reference(root0, job['src'], pat, job['tmpl'], job['cat'], s['nested'], s['count'],
-                                             s['loop'], s['on'], quirk='first-dirty', ctx=s.get('ctx', False))
-                if L.to_gen(q) == real['tree'] and (qu, qt) == (real['unique'], real['total']):
-                    cls = 'first-spliced-element-skipped'
-            except Exception:
-                pass
-        if cls == 'tree-differs' and info.get('matcher') is not None and info['matcher'].noncontig:
-            # a quantifier captured elements that are not consecutive in the (virtual) list: does the result hold the
-            # whole first..last range instead of the captured elements?
-            try:
-                q, qu, qt, _ = REF.reference(root0, job['src'], pat, job['tmpl'], job['cat'], s['nested'], s['count'],
-                                             s['loop'], s['on'], range_fill=True, ctx=s.get('ctx', False))
-                if L.to_gen(q) == real['tree'] and (qu, qt) == (real['unique'], real['total']):
-                    cls = 'range-includes-uncaptured'
-            except Exception:
-                pass
-        try:
-            exp = ast.unparse(ast.fix_missing_locations(ref))
-        except Exception:
-            exp = None
-        res['fail'] = (cls, 'result differs from the reference transformer', {'expected_src': exp})
-        return res
-    if (ru, rt) != (real['unique'], real['total']):
-        res['fail'] = ('counts-differ', f'counts {(real["unique"], real["total"])}, reference {(ru, rt)}')
-        return res
-    if job['tmpl'] in ('__FST_', '__FSO_') and real['tree'] != L.to_gen(ast.parse(job['src'])):
-        res['fail'] = ('identity-changed', 'whole-match template changed the structure')
-        return res
-    pure_body = ast.parse(job['src']).body
-    for st in kept:
-        st0 = next(o for o in pure_body if (o.lineno, o.col_offset) == (st.lineno, st.col_offset))
-        if not _block_preserved(job['src'], real['src'], st0, pure_body):
-            res['fail'] = ('text-outside-changed', f'lines of an untouched statement (line {st.lineno}) changed')
-            return res
-    if real['c01']:
-        if strslot and real['stale_only']:
-            res['fail'] = ('constant-value-stale', 'the returned tree keeps the template text as value of a string '
-                           'constant whose slots were filled in the source: ' + real['c01'])
-        else:
-            res['fail'] = ('c01', 'result tree is not the parse of the result source: ' + real['c01'])
-        return res
-    res['kept'] = len(kept)
-    return res
-
-
-def _fail_sig(job, cls):
-    if cls == 'slice-no-descent':       # the result equals the reference that does not look inside a slice put
-        return 'C18|stmt-pattern|multi-statement-template|enter,nested|slice-no-descent'
-    if cls == 'range-includes-uncaptured':   # the result equals the reference that fills the first..last range of the list
-        return 'C18|quantifier-over-args-or-keywords|interleaved-arguments|any|range-includes-uncaptured'
-    if cls == 'first-spliced-element-skipped':
-        return 'C18|whole-match|__FSS_-in-list-or-tuple-slot|enter,nested|first-spliced-element-skipped'
-    if cls == 'constant-value-stale':   # C01 fails and the only difference is the value of slot-bearing string constants
-        return 'C18|any|string-slot|any|constant-value-stale'
-    return f'C18|{job["shape"]}|{job["placement"]}|{L.setting_name(job["set"])}|{cls}'
-
-
-def sweep_jobs(ctx, n, layouts):
-    import corpus
-    rng = random.Random(ctx.rng.random())
-    jobs = L.gen_jobs(rng, n) + L.gen_chain_jobs(rng, n // 3, allow_nested=False) + L.gen_arglike_jobs(rng, n // 4) \
-        + L.gen_ctx_jobs(rng, n // 6) + L.gen_override_jobs(rng, n // 6) + L.gen_identlist_jobs(rng, n // 5) \
-        + MI.jobs(rng, n // 4)
-    # the reference covers loop and nested separately
-    for j in jobs:
-        if j['set']['loop'] is not False and j['set']['nested'] and j['set']['on'] == 'enter':
-            j['set']['nested'] = False
-    if layouts:
-        for j in jobs:
-            c = rng.random()
-            if c < 0.35:
-                j['src'] = corpus.add_comments(corpus.mutate_layout(j['src'], rng), rng)
-    return [dict(j) for j in L.DIRECTED] + jobs
-
-
-def _report(ctx, results):
-    n = 0
-    tmo = [r for r in results if r.get('timeout')]
-    ctx.notes['sweep_timeouts'] = len(tmo)
-    if len(tmo) > max(4, len(results) // 150):
-        job = tmo[0]['job']
-        ctx.fail(_fail_sig(job, 'timeout'), f'{len(tmo)} of {len(results)} substitutions did not finish in 20 s; first: '
-                 f'sub({job["pat"]}, {job["tmpl"]!r}, {job["set"]})',
-                 {k: job[k] for k in ('src', 'pat', 'tmpl', 'set', 'cat', 'shape', 'placement')})
-    for r in results:
-        job = r['job']
-        if r.get('timeout'):
-            ctx.tally('sweep_skipped', 'pfst did not finish in 20 s (size blow-up)')
-            continue
-        if 'skip' in r:
-            ctx.tally('sweep_skipped', r['skip'])
-            continue
-        if 'refused' in r:
-            ctx.tally('sweep_refused', r['refused'])
-            continue
-        if 'accepted' in r:
-            ctx.tally('sweep_refused', 'reference expects a refusal, pfst returned a result (not judged)')
-            continue
-        n += 1
-        ctx.count((job['src'], job['pat'], job['tmpl'], str(job['set'])), r.get('nsub', 1) > 0)
-        ctx.tally('sweep_setting', L.setting_name(job['set']))
-        ctx.tally('sweep_shape', job['shape'])
-        ctx.tally('sweep_placement', job['placement'])
-        if 'fail' in r:
-            cls, what = r['fail'][0], r['fail'][1]
-            w = {'src': job['src'], 'pat': job['pat'], 'tmpl': job['tmpl'], 'set': job['set'], 'cat': job['cat'], 'tmpl_mode': job.get('tmpl_mode'), 'spec': job.get('spec'),
-                 'shape': job['shape'], 'placement': job['placement'], 'result_src': r.get('out')}
-            if len(r['fail']) > 2:
-                w.update(r['fail'][2])
-            ctx.fail(_fail_sig(job, cls), f'sub({job["pat"]}, {job["tmpl"]!r}, {job["set"]}): {what}', w)
-    return n
-
-
-def _wrap_sig(r, cls):
-    if cls == 'count-loop-not-forwarded':
-        return 'C18|wrapper|cli|count,loop|not-forwarded'
-    return f'C18|wrapper|{r["entry"]}|{r["params"]}|{cls}'
-
-
-def wrappers(ctx):
-    """every public entry point x every forwarded parameter against the core subn (deterministic product)"""
-    cs = W.cases()
-    results = pmap(W.run_case, cs, chunksize=max(1, len(cs) // 16))
-    for r in results:
-        ctx.count(('wrapper', r['scenario'], r['entry'], r['kw']), r.get('nsub', 0) > 0)
-        ctx.tally('wrapper_entry', r['entry'])
-        ctx.tally('wrapper_params', r['params'])
-        if 'fail' in r:
-            cls, what = r['fail']
-            ctx.fail(_wrap_sig(r, cls), what, {'wrapper': r['case'], 'scenario': r['scenario'], 'entry': r['entry'],
-                                               'kw': r['kw']})
-    ctx.notes['wrapper_cases'] = len(results)
-    ctx.exhaustive = None
-
-
-def scopes(ctx):
-    """subn(scope=True, back in {False, True}) against Python's scoping computed on the CPython tree"""
-    rng = random.Random(ctx.rng.random())
-    cs = SC.cases(rng, 120 if ctx.quick else 1500)
-    results = pmap(SC.run_case, cs, chunksize=max(1, len(cs) // 16))
-    for r in results:
-        c = r['case']
-        ctx.count(('scope', c['src'], c['back']), r.get('nsub', 0) > 0)
-        ctx.tally('scope_back', c['back'])
-        if 'fail' in r:
-            ctx.fail(f'C18|scope|{"back" if c["back"] else "forward"}|scope=True|{r["fail"][0]}', r['fail'][1],
-                     {'scope_case': c, 'src': c['src'], 'back': c['back'], 'result_src': r.get('out')})
-    ctx.notes['scope_cases'] = len(results)
-
-
-def specials(ctx):
-    """captures that go through coercion (signatures, with-items, dict pairs, handlers, ...): C01 incl. positions, counts,
-    surrounding text, a second operation; multi-byte text throughout (deterministic product)"""
-    cs = SP.cases()
-    results = pmap(SP.run_case, cs, chunksize=max(1, len(cs) // 16))
-    for r in results:
-        c = r['case']
-        if 'skip' in r:
-            ctx.tally('special_skipped', r['skip'])
-            continue
-        ctx.count(('special', c['src'], c['pat'], c['tmpl'], c['nested']), r.get('nsub', 0) > 0)
-        ctx.tally('special_kind', c['kind'] + (':refused ' + r['refused'] if 'refused' in r else ''))
-        if 'fail' in r:
-            ctx.fail(f'C18|special|{c["kind"]}|{"nested" if c["nested"] else "flat"}|{r["fail"][0]}',
-                     f'sub({c["pat"]}, {c["tmpl"]!r}, nested={c["nested"]}) on {c["src"]!r}: {r["fail"][1]}',
-                     {'special_case': c, 'src': c['src'], 'pat': c['pat'], 'tmpl': c['tmpl'], 'result_src': r.get('out')})
-    ctx.notes['special_cases'] = len(results)
-
-
-def sweep(ctx):
-    wrappers(ctx)
-    scopes(ctx)
-    specials(ctx)
-    jobs = sweep_jobs(ctx, 700 if ctx.quick else 7500, True)
-    results = pmap(_sweep_case, jobs, chunksize=max(1, len(jobs) // 32))
-    n = _report(ctx, results)
-    ctx.notes['sweep_cases_judged'] = n
-    good = [r for r in results if 'out' in r and 'fail' not in r and r.get('nsub')]
-    if good:
-        g = good[len(good) // 2]
-        ctx.sample({'sweep': {'src': g['job']['src'][:200], 'pat': g['job']['pat'], 'tmpl': g['job']['tmpl'],
-                              'set': g['job']['set'], 'result': g['out'][:200]}})
-
-
-def search(ctx):
-    jobs = []
-    for name, job in ctx.hints[:200]:
-        if isinstance(job, dict) and 'src' in job:
-            j = dict(job)
-            j.setdefault('cat', 'expr')
-            jobs.append(j)
-    jobs += sweep_jobs(ctx, 6000, True)
-    results = pmap(_sweep_case, jobs, chunksize=max(1, len(jobs) // 32))
-    ctx.notes['search_cases_judged'] = _report(ctx, results)
-
-
-def replay(ctx, data):
-    w = data.get('witness')
-    if not w:
-        print('replay names a broken obligation:', data.get('broken'))
-        return
-    if 'special_case' in w:
-        c = w['special_case']
-        r = SP.run_case(c)
-        if 'fail' in r:
-            ctx.fail(f'C18|special|{c["kind"]}|{"nested" if c["nested"] else "flat"}|{r["fail"][0]}', r['fail'][1], w)
-        return
-    if 'scope_case' in w:
-        r = SC.run_case(w['scope_case'])
-        if 'fail' in r:
-            ctx.fail(f'C18|scope|{"back" if w["back"] else "forward"}|scope=True|{r["fail"][0]}', r['fail'][1], w)
-        return
-    if 'wrapper' in w:
-        r = W.run_case(w['wrapper'])
-        if 'fail' in r:
-            ctx.fail(_wrap_sig(r, r['fail'][0]), r['fail'][1], w)
-        return
-    job = {k: w[k] for k in ('src', 'pat', 'tmpl', 'set', 'cat', 'shape', 'placement', 'tmpl_mode', 'spec') if k in w}
-    r = _sweep_case(job)
-    if 'fail' in r:
-        ctx.fail(_fail_sig(job, r['fail'][0]), r['fail'][1], w)'combinator patterns: a small declarative pattern language with its OWN matcher on the CPython tree (harness/c18_mini.py), '
-        'compiled to MAND/MOR/MNOT/MTYPES-with-fields/M patterns: which nodes are selected while the tree is walked (search '
-        'pre-filter) and which node a tag names when tag names nest, judged without the matcher of pfst; special captures through '
-        'coercion (signatures, with-items, dict pairs, handlers, ...) judged by C01 incl. positions with multi-byte text; argument '
-        'reuse (asts list, option dicts); plus the documentation examples as directed cases. nodes with the filled-in template."""
-
-import ast
-import json
-import random
-
-import c18_lib as L
-import c18_ref as REF
-import c18_wrap as W
-import c18_scope as SC
-import c18_special as SP
-import c18_mini as MI
-from framework import pmap
-
-ID = 'C18'
-LEAN_MODULES = ['Pfst.Props.C18']
-LEAN_DEPS = ['Pfst.Sub', 'Pfst.SubLemmas']
-THEOREMS = ['Pfst.C18.sub_spec', 'Pfst.C18.sub_counts', 'Pfst.C18.sub_counts_cap', 'Pfst.C18.sub_frame',
-            'Pfst.C18.sub_frame_kids', 'Pfst.C18.sub_frame_node', 'Pfst.C18.sub_identity', 'Pfst.C18.sub_nested_id', 'Pfst.C18.sub_wrapper',
-            'Pfst.C18.nested_dirty_kept', 'Pfst.C18.edge_item', 'Pfst.C18.edge_item_virtual', 'Pfst.C18.edge_item_empty',
-            'Pfst.C18.ex_nested']
-RULE = ('generated small programs (calls, lists, tuples, operators, attributes, subscripts, conditional expressions, nested '
-        'if/while/for/def) x 39 pattern families (bare node, node tags, whole list field views, quantifier slices MQSTAR/MQPLUS, '
-        'sub-sequence quantifiers, multi-node and whole-match tags; expression and statement patterns) x 40 template formats '
-        '(slot as whole template, in a call argument list, in list/tuple elements, as operand, as value of attribute/subscript, '
-        'as statement in a body, in a multi-statement template, whole-match slot, two tags, a tag used twice, a tag the pattern '
-        'never sets, __FST_/__FSS_/__FSO_ prefixes; slots inside string and bytes constants: several on one line and in one '
-        'constant, mixed with node slots, multi-line strings, multi-byte text, captured text shorter/longer than the slot name) '
-        'x nested x on(enter/leave) x count(0..3) x loop(False,1,2,3,True); loop chains: 7 pattern/template pairs whose rewrite '
-        'keeps matching a bounded number of times, over programs with 2-5 match locations of different chain lengths (0..6), '
-        'loop in {1,2,3,4,6,True}; virtual fields: calls and class definitions whose positional, *starred, keyword and **kw '
-        'arguments interleave in every legal order, quantifier captures over Call._args / ClassDef._bases / Call.keywords / '
-        'Call.args whose first and last element is of each kind, templates with the slice in a call or class argument list; '
-        'expr_context: the same names in Load/Store/Del positions with AST and M-patterns whose ctx INSTANCE discriminates, '
-        'ctx in {False, True} (compared modulo ctx, C01 judges the contexts); wrappers: a deterministic product of 11 scenarios x '
-        'every forwarded parameter (ctx, nested, count, loop, on, back, scope, self_, recurse, asts, callback, callback_after, '
-        'copy_options/repl_options incl. explicit {}, **options) x entry points (sub method, fst.match.sub, FST.sub unbound, '
-        'fst.match.subn, python -m fst.cli.sub with argv): each must equal subn() with the same arguments; '
-        'scope: subn(scope=True, back in {False,True}) on functions with nested defs (every parameter shape, annotations and '
-        'defaults present or absent independently), classes, lambdas and comprehensions against Python scoping computed on the '
-        'CPython tree; identifier lists: slots at every index among fixed entries in MatchClass keyword attributes (pattern '
-        'templates), call/class keyword names, global/nonlocal names, import aliases, lambda/def arguments, attribute chains, '
-        'filled by name by the reference; plus the documentation examples as directed cases. (a) correspondence: tree, per-node match results of the REAL matcher and the '
+        'filled by name by the reference; combinator patterns: a small declarative pattern language with its OWN matcher on the '
+        'CPython tree (harness/c18_mini.py) compiled to MAND/MOR/MNOT/MTYPES-with-fields/M patterns (which nodes are selected '
+        'while the tree is walked, which node a tag names when tag names nest), judged without the matcher of pfst; special '
+        'captures through coercion (signatures, with-items, dict pairs, handlers, ...) judged by C01 incl. positions with '
+        'multi-byte text; argument reuse (asts list, option dicts); plus the documentation examples as directed cases. (a) correspondence: tree, per-node match results of the REAL matcher and the '
         'template are translated into the Lean model; when the model asks about a tree that did not exist in the input (leave, '
         'loop) the real matcher is asked and the case re-run; result tree (ctx kept) and both counts compared with the real subn. '
         '(b) sweep: the real subn against a pure-AST reference transformer written in the harness (copy.deepcopy, captures taken '
